@@ -145,6 +145,13 @@ def _cfg(draw, cls, tier, noise_free=False):
         else:
             Nr = [draw(st.integers(2, nmax)) for _ in range(K)]
             Nt = [draw(st.integers(2, nmax)) for _ in range(K)]
+            if draw(st.integers(0, 2)) == 0:
+                # one small user next to well-equipped ones (the others may
+                # then ask for more streams than the small user has antennas)
+                j = draw(st.integers(0, K - 1))
+                for k in range(K):
+                    Nr[k], Nt[k] = (2, 2) if k == j else (
+                        max(Nr[k], nmax), max(Nt[k], nmax - 1))
     if noise_free:
         noise = None
     elif cls in ("MaxSinr", "MMSE"):
@@ -177,6 +184,9 @@ def _ns(draw, cls, cfg, equal=False, high=False):
         return [one(cfg["Nr"][0] // 2)] * K
     if equal or draw(st.booleans()):
         return [one(min(lim))] * K
+    if max(lim) > min(lim) + 1 and draw(st.booleans()):
+        # every user at its own limit
+        return list(lim)
     return [one(lim[k]) for k in range(K)]
 
 
